@@ -987,16 +987,49 @@ impl C10 {
             }
             // conversation with the file system (reported when the results themselves agree)
             if mlog != ilog {
+                // The statement fixes WHICH file is used and that nothing is read where nothing should be;
+                // it does not fix the order or number of existence probes. So: every open must be the
+                // model's open, in order; every probe must be of a path the resolution rule looks at for a
+                // name this call resolves; a mere difference in probe order / multiplicity is accepted.
                 let i = (0..mlog.len().max(ilog.len())).find(|i| mlog.get(*i) != ilog.get(*i)).unwrap_or(0);
+                let opens = |l: &[String]| -> Vec<String> { l.iter().filter(|e| e.starts_with("open ") || e.starts_with("read ")).cloned().collect() };
+                let probed: std::collections::BTreeSet<String> = mlog
+                    .iter()
+                    .filter(|e| e.starts_with("exists ") || e.starts_with("open "))
+                    .filter_map(|e| e.split(' ').nth(1).map(|p| p.to_string()))
+                    .collect();
+                let stray = ilog
+                    .iter()
+                    .filter(|e| e.starts_with("exists ") || e.starts_with("open "))
+                    .find(|e| e.split(' ').nth(1).map(|p| !probed.contains(p)).unwrap_or(false));
+                let toctou = call.faults.iter().any(|f| matches!(f.kind, FaultKind::ToctouVanish | FaultKind::ToctouAppear));
                 let clause = if call.ignore_include { "C10.ignore_include_reads_nothing" } else { "C10.resolution_protocol" };
-                fail(
-                    rep,
-                    clause,
-                    "io-monitor",
-                    format!("op #{}: {}", i, mlog.get(i).cloned().unwrap_or_else(|| "<no further operation>".into())),
-                    format!("op #{}: {}", i, ilog.get(i).cloned().unwrap_or_else(|| "<no further operation>".into())),
-                    format!("file-system conversation differs from the resolution rule (model {} ops, library {} ops)", mlog.len(), ilog.len()),
-                );
+                if let Some(e) = stray {
+                    fail(
+                        rep,
+                        clause,
+                        "io-monitor",
+                        "only paths the resolution rule looks at for the names this call resolves".into(),
+                        e.clone(),
+                        format!("the library touched a path the rule never looks at (first differing op #{}: model `{}`)", i, mlog.get(i).cloned().unwrap_or_else(|| "<no further operation>".into())),
+                    );
+                } else if opens(&mlog) != opens(&ilog) {
+                    if toctou && mlog.iter().filter(|e| e.starts_with("exists ")).ne(ilog.iter().filter(|e| e.starts_with("exists "))) {
+                        // a different (legal) probe sequence met the injected race differently: cannot be judged
+                        rep.probe("unjudged_probe_order_under_toctou", 1);
+                    } else {
+                        fail(
+                            rep,
+                            clause,
+                            "io-monitor",
+                            format!("op #{}: {}", i, mlog.get(i).cloned().unwrap_or_else(|| "<no further operation>".into())),
+                            format!("op #{}: {}", i, ilog.get(i).cloned().unwrap_or_else(|| "<no further operation>".into())),
+                            format!("the files opened differ from the resolution rule (model {} ops, library {} ops)", mlog.len(), ilog.len()),
+                        );
+                    }
+                } else {
+                    rep.probe("probe_order_differs_only", 1);
+                }
             }
         }
         // ---- reach probes
